@@ -157,8 +157,9 @@ def station_histories(ctx, hist):
                 ctx.replayed()
             else:
                 ctx.violation({"history": [x for x, _ in acts], "kind": "ds", "op": "sel_" + name},
-                              "sel(method=%s) after history %s differs from a fresh dataset with the same station coordinates" % (name, [(x, g) for x, g in acts]),
-                              {"got_lon": None if isinstance(a[0], str) else a[1].tolist(), "fresh_lon": None if isinstance(b[0], str) else b[1].tolist()})
+                              "%s after history %s differs from a fresh dataset with the same contents" % (("sel(method=%s)" % name) if not name.startswith("to_") else name, [(x, g) for x, g in acts]),
+                              {"got_lon": a[1].tolist() if len(a) > 1 and not isinstance(a[0], str) else None,
+                               "fresh_lon": b[1].tolist() if len(b) > 1 and not isinstance(b[0], str) else None})
 
 
 def run(ctx):
